@@ -128,7 +128,7 @@ struct EncWorld : World {
 		p.set("mode", r.chance(1, 3) ? 1 : 0);       // 0 direct window, 1 mpt_array_push
 		// array mode only: a first message of this many bytes is pushed, taken and consumed through the C++ encode_array interface before the message proper
 		p.set("prelude", r.chance(1, 2) ? 0 : (r.chance(1, 2) ? r.range(1, 64) : r.range(64, 400)));
-		p.set("preflags", r.below(8));       // bit 0: push the first message as a two-fragment mpt::message, bit 1: compact (shift(0)) after consuming, bit 2: consume in two steps
+		p.set("preflags", r.below(16));       // bit 0: push the first message as a two-fragment mpt::message, bit 1: compact (shift(0)) after consuming, bit 2: consume in two steps, bit 3: a copy of the array exists while half of the first frame still waits (the buffer is shared when the next message is pushed)
 		p.set("win0", r.chance(1, 2) ? 0 : edgy(r, 300));
 		p.set("inc", r.chance(1, 2) ? r.range(1, 3) : r.range(1, 64)); // drain grant increment
 		p.set("mis", r.range(0, 15));
@@ -356,10 +356,26 @@ struct EncWorld : World {
 			check_roundtrip(framing, first, f1, 0, "c-encoder (first message on the array)", log);
 			// consume it; what follows must encode as if the array were fresh
 			bool sh;
-			if ((pf & 4) && f1.size() > 1) { { Sut s; sh = arr.shift(f1.size() / 2) && arr.shift(f1.size() - f1.size() / 2); } }
+			if ((pf & 8) && f1.size() > 1 && !msg.empty()) {
+				// half of the frame is taken, a copy of the array is made (it shares the buffer), the next message starts: the waiting half must
+				// still be there, byte for byte, before it is taken as well
+				size_t half = f1.size() / 2; bool s1; { Sut s; s1 = arr.shift(half); }
+				if (!s1) fail("refused-valid", "consuming half of the finished frame was refused");
+				encode_array *keep; { Sut s; keep = new encode_array(arr); }
+				size_t k = std::min<size_t>(msg.size(), 1 + prelude % 7); Block src(k, 0); memcpy(src.p, msg.data(), k);
+				ssize_t r; { Sut s; SUT_GUARD_ABORT(r = mpt_array_push(&arr, k, src.p)); }
+				st.hit("op:PUSH_WHILE_SHARED");
+				if (r < 0) fail("refused-valid", "%s: push of %zu bytes on an array whose buffer a copy shares was refused (%zd)", ref::framing_name(framing), k, r);
+				pos += (size_t) r;
+				span<const uint8_t> w; { Sut s; w = arr.data(); }
+				size_t rest = f1.size() - half;
+				if ((size_t) w.size() < rest || memcmp(w.begin(), f1.data() + half, rest)) fail("roundtrip", "%s: after a push on a shared buffer the %zu waiting bytes of the previous frame read differently (data() has %ld bytes)", ref::framing_name(framing), rest, (long) w.size());
+				{ Sut s; sh = arr.shift(rest); delete keep; }
+			}
+			else if ((pf & 4) && f1.size() > 1) { { Sut s; sh = arr.shift(f1.size() / 2) && arr.shift(f1.size() - f1.size() / 2); } }
 			else { Sut s; sh = arr.shift(f1.size()); }
 			if (!sh) fail("refused-valid", "consuming the finished frame of %zu bytes was refused", f1.size());
-			if (arr._state.done) fail("state-bounds", "after consuming the only finished frame %zu finished bytes remain", arr._state.done);
+			if (arr._state.done && !((pf & 8) && pos)) fail("state-bounds", "after consuming the only finished frame %zu finished bytes remain", arr._state.done);
 			if ((pf & 2) && !(pf & 1)) { bool c; { Sut s; c = arr.shift(0); } log.ev("COMPACT -> %d", (int) c); st.hit("op:COMPACT"); }
 			st.hit("op:CONSUME");
 		}
